@@ -43,6 +43,16 @@ CHECKS = {
   "Every map of the bounded space (<=3 entries, 4 names, every alphabet value of the 19 supported types) is encoded and decoded by rbx_types, decoded by the independent decoder, and re-encoded by the independent encoder for rbx_types to decode; 0/1-entry maps also travel through a binary and an XML file.",
   "Independent codec harness/src/c14.rs::specattr reproduces the 11 worked examples of the document before any verdict; the document's NumberRange example contradicts its prose (prose followed).",
   "5/C14"),
+ "C15": ("dbwalk", "model_checking",
+  "complete enumeration of the database's migrating (class, property) pairs x every database-legal legacy value x new property absent/present x four read/write paths x both encounter orders, compared with each other and with PropertyMigration::perform",
+  "All 52 (class, legacy property) pairs reachable in the bundled database, all 53 Enum.Font items, all BrickColor numbers, both booleans and a URI alphabet go through write-binary, write-XML, read-binary and read-XML (legacy-named files produced through the public reflection-off options, chunk/element order swapped for the second encounter order).",
+  "Legacy-named input files come from the subject's own writers with reflection switched off, not from an independent encoder.",
+  "5/C15"),
+ "C16": ("dbwalk", "model_checking",
+  "complete walk of the finite reflection database (every class, descriptor, enum, default) plus one default-populated instance per class and every reachable (class, property-name) lookup through both real codecs",
+  "The database is a finite artefact and is enumerated completely: 797 classes, 3242 descriptors, 458 enums, 7231 defaults, 22586 reachable (class, property) pairs; coherence rules are evaluated on each, and both codecs' lookups are exercised under catch_unwind.",
+  "Counts are measured from the linked database, nothing is hard-coded; a regenerated database is checked by the same walk.",
+  "5/C16"),
  "C17": ("serdex", "model_checking",
   "bounded-exhaustive enumeration of Variant values through every serde_json entry point, bincode and MessagePack, exhaustive sweeps of the finite domains (all u16 BrickColor numbers, all bit sets), text forms of Ref/UniqueId over boundary values, and every allValues.json sample",
   "Identity is checked bit-exactly for every case; the finite domains are swept completely; allValues.json is decoded through three entry points and re-encoded.",
@@ -98,6 +108,7 @@ def main():
         "engines": [
             {"name": "domx", "path": "harness/src/domx.rs", "serves_properties": ["C09", "C10", "C11", "C12"],
              "kind_free_text": "explicit-state BFS whose transition function calls the real WeakDom methods; reference model in lock-step (harness/src/dommodel.rs)"},
+            {"name": "dbwalk", "path": "harness/src/c16.rs", "serves_properties": ["C15", "C16"], "kind_free_text": "complete enumeration of the reflection database through the public rbx_reflection types and both codecs"},
             {"name": "serdex", "path": "harness/src/c17.rs", "serves_properties": ["C17"], "kind_free_text": "bounded-exhaustive value enumeration through serde entry points"},
             {"name": "codec", "path": "harness/src/sweeps.rs", "serves_properties": ["C01", "C02", "C14"],
              "kind_free_text": "bounded-exhaustive case enumeration (harness/src/codec.rs) through the real codecs in forked workers; expectations from plans + specdb"},
